@@ -22,6 +22,7 @@ import (
 type Cursor struct {
 	bucket *Bucket
 	stack  []elemRef
+	verif  verifCursorState
 }
 
 // Bucket returns the bucket that this cursor was created from.
@@ -224,6 +225,7 @@ func (c *Cursor) next() (key []byte, value []byte, flags uint32) {
 		onElement = ref.index < ref.count()
 	}
 	for {
+		verifCursorStep(c)
 		// Attempt to move over one element until we're successful.
 		// Move up the stack as we hit the end of each page in our stack.
 		var i int
@@ -266,6 +268,7 @@ func (c *Cursor) next() (key []byte, value []byte, flags uint32) {
 // If the cursor is at the beginning of the bucket then a nil key and value are returned.
 func (c *Cursor) prev() (key []byte, value []byte, flags uint32) {
 retry:
+	verifCursorStep(c)
 	// Attempt to move back one element until we're successful.
 	// Move up the stack as we hit the beginning of each page in our stack.
 	for i := len(c.stack) - 1; i >= 0; i-- {
